@@ -48,7 +48,7 @@ func init() {
 
 func (c06) Runs(tier string) int64 {
 	if tier == "thorough" {
-		return int64(len(c06perms))*40 + 1500000
+		return int64(len(c06perms))*40 + 3000000
 	}
 	return int64(len(c06perms))*4 + 60000
 }
